@@ -709,7 +709,12 @@ pub fn gen_struct(rng: &mut Rng, class: Class) -> Item {
                 },
                 4 => attrs.push(ghost_instr(rng, &cps, true)),
                 5 => { let d = rng.chance(1, 2); attrs.push(ghost_instr(rng, &cps, d)) },
-                6 => attrs.push(format!("as_type({})", rng.pick(&["i64", "f64", "u8", "EntityDto| other, u32"]))),
+                6 => {
+                    // any primitive, and now and then a word the expander's sources mention
+                    let corpus_words: &[String] = crate::corpus::TYPE_WORDS.get().map(|v| v.as_slice()).unwrap_or(&[]);
+                    let ty = if !corpus_words.is_empty() && rng.chance(1, 6) { rng.pick(corpus_words).clone() } else { rng.pick(&["i64", "f64", "u8", "EntityDto| other, u32", "usize", "isize", "u64", "i128", "f32", "u16", "bool", "char"]).to_string() };
+                    attrs.push(format!("as_type({})", ty))
+                },
                 7 => attrs.push(if rng.chance(1, 2) || cps.is_empty() { "parent".to_string() } else { format!("parent({})", rng.pick(&cps)) }),
                 _ => {},
             }
@@ -1491,7 +1496,77 @@ pub fn generate(rng: &mut Rng, corpus: &Corpus, class: Class) -> Item {
     if rng.chance(1, 3) {
         decorate(rng, &mut item);
     }
+    if item.raw.is_none() && rng.chance(1, 6) {
+        collide_names(rng, corpus, &mut item);
+    }
     item
+}
+
+/// whole-word replacement (`from` not followed or preceded by an identifier character; a
+/// lifetime `'a` is not the start of the char literal `'a'`)
+fn replace_word(text: &str, from: &str, to: &str) -> String {
+    let b = text.as_bytes();
+    let is_id = |c: u8| c.is_ascii_alphanumeric() || c == b'_';
+    let mut out = String::with_capacity(text.len());
+    let mut i = 0;
+    while i < b.len() {
+        if text[i..].starts_with(from) {
+            let lt = from.starts_with('\'');
+            let after = i + from.len();
+            let before_ok = lt || i == 0 || !(is_id(b[i - 1]) || b[i - 1] == b'\'');
+            let after_ok = after >= b.len() || !(is_id(b[after]) || (lt && b[after] == b'\''));
+            if before_ok && after_ok {
+                out.push_str(to);
+                i = after;
+                continue;
+            }
+        }
+        let ch = text[i..].chars().next().unwrap();
+        out.push(ch);
+        i += ch.len_utf8();
+    }
+    out
+}
+
+/// An input may use the very names the expander's templates use: a lifetime the generated
+/// impls introduce (`'o2o`), a binding of the generated bodies (`value`, `other`).  One name of
+/// the item -- a lifetime, or a field -- is renamed, everywhere in the item, to a name taken
+/// from the sources of the tree under test.
+fn collide_names(rng: &mut Rng, corpus: &Corpus, item: &mut Item) {
+    let everywhere = |item: &mut Item, from: &str, to: &str| {
+        for a in item.type_attrs.iter_mut() {
+            *a = replace_word(a, from, to);
+        }
+        item.generics = replace_word(&item.generics, from, to);
+        item.where_clause = replace_word(&item.where_clause, from, to);
+        for m in item.members.iter_mut() {
+            for a in m.attrs.iter_mut() {
+                *a = replace_word(a, from, to);
+            }
+            m.decl = replace_word(&m.decl, from, to);
+        }
+    };
+    let lifetime_turn = !corpus.dict_lifetimes.is_empty() && (corpus.dict_idents.is_empty() || rng.chance(1, 2));
+    if lifetime_turn {
+        let to = rng.pick(&corpus.dict_lifetimes).clone();
+        // a lifetime the item declares; if it declares none, it gets one (used by a new field)
+        let declared: Vec<String> = ["'a", "'b", "'c", "'x", "'y", "'z"].iter().filter(|l| replace_word(&item.generics, l, "") != item.generics).map(|s| s.to_string()).collect();
+        if let Some(from) = declared.first() {
+            everywhere(item, from, &to);
+        } else if !item.is_enum && item.shape == crate::item::Shape::Named {
+            item.generics = if item.generics.is_empty() { format!("<{}>", to) } else { format!("<{}, {}", to, &item.generics[1..]) };
+            item.members.push(crate::item::Member { attrs: vec![], decl: format!("borrowed_text: &{} str", to) });
+        }
+        item.origin = format!("{}+lifetime[{}]", item.origin, to);
+    } else if !corpus.dict_idents.is_empty() && !item.is_enum && item.shape == crate::item::Shape::Named && !item.members.is_empty() {
+        let to = rng.pick(&corpus.dict_idents).clone();
+        let mi = rng.below(item.members.len() as u64) as usize;
+        let from: String = item.members[mi].decl.split(':').next().unwrap_or("").trim().trim_start_matches("pub ").trim().to_string();
+        if !from.is_empty() && from.chars().all(|c| c.is_ascii_alphanumeric() || c == '_') && !item.members.iter().any(|m| m.decl.trim_start().starts_with(&format!("{}:", to))) {
+            everywhere(item, &from, &to);
+            item.origin = format!("{}+field[{}]", item.origin, to);
+        }
+    }
 }
 
 fn generate_undecorated(rng: &mut Rng, corpus: &Corpus, class: Class) -> Item {
@@ -1558,4 +1633,92 @@ fn generate_undecorated(rng: &mut Rng, corpus: &Corpus, class: Class) -> Item {
         },
         _ => gen_struct(rng, class),
     }
+}
+
+/// A copy of `item` with one small edit: a flag parameter toggled (`repeat()` <-> `repeat(permeate())`,
+/// `skip_repeat`, `stop_repeat` dropped), one attribute dropped, a number changed, or the type renamed.
+pub fn sibling(rng: &mut Rng, item: &Item) -> Item {
+    let mut it = item.clone();
+    it.origin = format!("{}+sibling", it.origin);
+    let all_attrs = |it: &mut Item, f: &mut dyn FnMut(&mut String) -> bool| -> bool {
+        let mut done = false;
+        for a in it.type_attrs.iter_mut() {
+            if !done && f(a) {
+                done = true;
+            }
+        }
+        for m in it.members.iter_mut() {
+            for a in m.attrs.iter_mut() {
+                if !done && f(a) {
+                    done = true;
+                }
+            }
+            // attributes of an enum variant's own fields live in the declaration
+            if !done && f(&mut m.decl) {
+                done = true;
+            }
+        }
+        done
+    };
+    // flag toggles first: they keep both expansions on the same path with a different value
+    const TOGGLES: [(&str, &str); 8] = [("repeat(permeate())", "repeat()"), ("repeat()", "repeat(permeate())"), ("permeate(), ", ""), ("#[repeat]", "#[repeat(permeate())]"), ("#[skip_repeat]", ""), ("#[stop_repeat]", ""), ("allow_unknown", "allow_unknown, allow_unknown"), ("#[repeat(", "#[repeat(permeate(), ")];
+    let start = rng.below(TOGGLES.len() as u64) as usize;
+    if rng.chance(2, 3) {
+        for t in 0..TOGGLES.len() {
+            let (from, to) = TOGGLES[(start + t) % TOGGLES.len()];
+            if all_attrs(&mut it, &mut |a: &mut String| {
+                if let Some(p) = a.find(from) {
+                    a.replace_range(p..p + from.len(), to);
+                    true
+                } else {
+                    false
+                }
+            }) {
+                return it;
+            }
+        }
+    }
+    match rng.below(4) {
+        0 if it.n_attrs() > 1 => {
+            // drop one attribute
+            let n = rng.below(it.n_attrs() as u64) as usize;
+            if n < it.type_attrs.len() {
+                it.type_attrs.remove(n);
+            } else {
+                let mut r = n - it.type_attrs.len();
+                for m in it.members.iter_mut() {
+                    if r < m.attrs.len() {
+                        m.attrs.remove(r);
+                        break;
+                    }
+                    r -= m.attrs.len();
+                }
+            }
+        },
+        1 => {
+            // change a digit somewhere in an attribute
+            let d = (b'0' + rng.below(10) as u8) as char;
+            all_attrs(&mut it, &mut |a: &mut String| {
+                if let Some(p) = a.char_indices().find(|(i, c)| c.is_ascii_digit() && *i > 2).map(|x| x.0) {
+                    a.replace_range(p..p + 1, &d.to_string());
+                    true
+                } else {
+                    false
+                }
+            });
+        },
+        2 if !it.members.is_empty() => {
+            // move one member's attributes to another member
+            let from = rng.below(it.members.len() as u64) as usize;
+            let to = rng.below(it.members.len() as u64) as usize;
+            if from != to {
+                let moved = std::mem::take(&mut it.members[from].attrs);
+                it.members[to].attrs.extend(moved);
+            }
+        },
+        _ => {
+            it.name = format!("{}Sib", it.name);
+        },
+    }
+    it
 }
